@@ -199,6 +199,7 @@ Clauses(ob) ==
      \o If([i \in 1..Len(ob.cpp.collectors) |-> [cpp |-> ob.cpp.collectors[i].cpp, name |-> ob.cpp.collectors[i].name]] = pre.collectors,
            "C10:collectors-differ-from-classes")
      \o If(ob.cpp.delete_loops = pre.delete_loops, "C10:unload-does-not-free-every-collector")
+     \o If(ob.cpp.delete_loops = pre.delete_loops, "C11:unload-does-not-free-every-collector")
      \o If([i \in 1..Len(ob.cpp.rtti) |-> [cpp |-> ob.cpp.rtti[i].cpp, name |-> ob.cpp.rtti[i].name]] = pre.rtti, "C10:rtti-entries-differ-from-virtual-classes")
      \o If([i \in 1..Len(ob.cpp.export_guids) |-> [cpp |-> ob.cpp.export_guids[i].cpp, name |-> ob.cpp.export_guids[i].name]]
            = (IF ob.opts.ser THEN pre.guids ELSE <<>>), "C10:serialization-export-guids")
